@@ -93,6 +93,7 @@ def canon(out, ops):
         if op == "E":
             res.append("")
             continue
+        items = [x for x in items if x != "Wm"]   # the delayed multicast response itself
         if op[0] == "F":
             keep, infl = [], set()
             for it in items:
@@ -140,7 +141,7 @@ def mon_line(prefix, ops, out):
                     return None
                 toks += ["T%s,0" % sid, ",".join(per[sid])]
             continue
-        if any(("@" in it) or it[0] == "W" for it in items):
+        if any(("@" in it) or (it[0] == "W" and it != "Wm") for it in items):
             return None
         toks += [op, ",".join(items) if items else "-"]
     return " ".join(toks)
